@@ -246,6 +246,41 @@ extern "C" int harness_main() {
   verif_reach(ok ? "accepted" : "rejected");
   return 0;
 }
+#elif defined(MODE_RULEVARS)
+// rule variables that refer to each other in every possible way (structure-aware generation: the interesting inputs are reference graphs, not bytes):
+// evaluation either terminates or ends in Fatal("cycle in rule variables"); it never recurses without bound
+#include "disk_interface.h"
+#include "manifest_parser.h"
+#include "state.h"
+#include "graph.h"
+static std::string g_main;
+struct FR : public FileReader {
+  Status ReadFile(const std::string& path, std::string* contents, std::string* err) override {
+    if (path == "build.ninja") { *contents = g_main; return Okay; }
+    *err = "no such file"; return NotFound;
+  }
+};
+extern "C" int harness_main() {
+  ir2c_global_ctors();
+  static const char* kTok[] = { "x", "$description", "$rspfile", "$rspfile_content" };
+  static const char* kVar[] = { "description", "rspfile", "rspfile_content" };
+  g_main = "rule r\n  command = $description $rspfile\n  depfile = $description\n";
+  for (int v = 0; v < 3; v++) { int a = verif_choice("first_reference", 4), b = verif_choice("second_reference", 4); g_main += std::string("  ") + kVar[v] + " = " + kTok[a] + " " + kTok[b] + "\n"; }
+  g_main += "build o: r i\n";
+  State state; FR fr; std::string err;
+  ManifestParser mp(&state, &fr);
+  bool ok = mp.Load("build.ninja", &err);
+  VERIF_ASSERT(ok && state.edges_.size() == 1, "C13: the rule-variable manifest parses");
+  if (!ok || state.edges_.empty()) return 0;
+  Edge* e = state.edges_[0];
+  verif_expect_fatal(1);      // "cycle in rule variables" is the documented way out; unbounded recursion is not
+  int order = verif_choice("evaluation_order", 2);
+  long n = 0;
+  if (order == 0) { n += (long)e->EvaluateCommand(true).size(); n += (long)e->GetBinding("description").size(); n += (long)e->GetUnescapedDepfile().size(); n += (long)e->GetUnescapedRspfile().size(); }
+  else { n += (long)e->GetUnescapedRspfile().size(); n += (long)e->GetBinding("rspfile_content").size(); n += (long)e->GetBinding("description").size(); n += (long)e->EvaluateCommand(true).size(); }
+  verif_obs(n); verif_reach("evaluated");
+  return 0;
+}
 #elif defined(MODE_MANIFEST)
 #include "disk_interface.h"
 #include "manifest_parser.h"
